@@ -67,6 +67,12 @@ def select(value, rows, scalar):
     return value[np.asarray(rows, dtype=int)]
 
 
+COV_FAMILY = {'covariance', 'covariance_eigvals', 'semimajor_sigma',
+              'semiminor_sigma', 'orientation', 'eccentricity', 'elongation',
+              'ellipticity', 'covar_sigx2', 'covar_sigy2', 'covar_sigxy',
+              'cxx', 'cxy', 'cyy', 'fwhm', 'equivalent_radius'}
+
+
 def invalid_arg(method, arg):
     return ((method == 'circular_photometry' and arg <= 0)
             or (method == 'fluxfrac_radius' and not 0 < arg <= 1))
@@ -331,8 +337,15 @@ class CatalogMachine(Machine):
             st.fvals[p] = call(getattr, st.fresh, p)
         if p not in st.fvals:
             # the reference value of p comes from a pristine catalog on
-            # which nothing else was ever evaluated ...
-            v = call(getattr, self._build(st, st.scene), p)
+            # which nothing else was ever evaluated (the properties derived
+            # from the covariance matrix share one: its regularisation loop
+            # can take seconds on degenerate sources) ...
+            if p in COV_FAMILY:
+                if getattr(st, 'cov_cat', None) is None:
+                    st.cov_cat = self._build(st, st.scene)
+                v = call(getattr, st.cov_cat, p)
+            else:
+                v = call(getattr, self._build(st, st.scene), p)
             # ... and the long-lived never-indexed catalog, on which the
             # properties pile up in the order the run asks for them, must
             # agree with it: a value must not depend on what was evaluated
@@ -566,12 +579,16 @@ class CatalogMachine(Machine):
     def _scalar_props(self, st):
         if st.scalar_props is None:
             out = []
+            # classification only (which properties a table can hold): done
+            # on a catalog of its own, so that generating a run leaves the
+            # reference catalogs exactly as replaying it finds them
+            kc = self._build(st, st.scene)
             for p in st.props:
-                v = self._fval(st, p)
+                v = call(getattr, kc, p)
                 # per-source scalars and per-source arrays (centroid,
                 # moments, covariance, ...): anything a table can hold
                 if isinstance(v, np.ndarray) and v.ndim >= 1 and \
-                        v.dtype.kind in 'iuf' and p not in st.null_bad \
+                        v.dtype.kind in 'iuf' \
                         and p not in ALWAYS_ITERABLE \
                         and len(v) == st.n:
                     out.append(p)
@@ -868,6 +885,20 @@ class CatalogMachine(Machine):
                  or hasattr(type(a.cat), n)]
         out = call(getattr(a.cat, method), arg, name=name)
         ref = call(getattr(st.fresh, method), arg)
+        if st.cfg.get('pristine_ref', True):
+            # as for the properties: the reference comes from a pristine
+            # catalog, and the long-lived one must agree with it
+            ref0 = call(getattr(self._build(st, st.scene), method), arg)
+            d = diff(ref0, ref)
+            if d is not None and not (isinstance(ref0, Raised)
+                                      and isinstance(ref, Raised)):
+                ref1 = call(getattr(self._build(st, st.scene), method), arg)
+                if diff(ref0, ref1) is None:
+                    raise Violation(
+                        'commute', method,
+                        f'{method}({arg}) on the never-indexed catalog '
+                        f'depends on what was evaluated before it: {d}')
+            ref = ref0
         st.trace.add('phot', method, digest(out))
         if clash and not invalid_arg(method, arg):
             st.stats.fault('reject')
